@@ -57,6 +57,30 @@ def main():
         needs = json.load(open(os.path.join(dest, "meta.json"))).get("needs_to_manifest", "")
     meta = {"property": pid, "name": name, "needs_to_manifest": needs, "confirmed_at": time.strftime("%Y-%m-%d %H:%M"),
             "ran": []}
+    if os.environ.get("VERIF_SEED_RECHECK") and os.path.exists(os.path.join(dest, "meta.json")):
+        # regression mode: the seed was confirmed before; only re-run the check against the patched tree
+        meta = json.load(open(os.path.join(dest, "meta.json")))
+        try:
+            pat = os.path.join(work, "patched")
+            copy_repo(pat)
+            rc, out = sh("patch -p1 --no-backup-if-mismatch < %s" % os.path.join(dest, "patch.diff"), pat)
+            if rc != 0:
+                print(json.dumps({"name": name, "recheck": "patch no longer applies"}))
+                return
+            ev = os.path.join(work, "evidence")
+            t0 = time.time()
+            p = subprocess.run([os.path.join(VERIF, "bin", "check"), pid], capture_output=True, text=True,
+                               env=dict(os.environ, VERIF_REPO=pat, VERIF_EVIDENCE_DIR=ev, VERIF_REPLAY_DIR=os.path.join(work, "replays")))
+            lines = [l for l in p.stdout.split("\n") if l.startswith(("VIOLATION", "UNDECIDED", "property"))]
+            meta["check"] = {"cmd": "VERIF_REPO=<patched copy> bin/check %s" % pid, "exit": p.returncode,
+                             "verdict": {0: "NOT DETECTED", 1: "DETECTED (VIOLATION)", 2: "UNDECIDED"}.get(p.returncode, str(p.returncode)),
+                             "lines": [re.sub(r"/tmp/hpbf-seed-\w+/", "", l) for l in lines][:8], "wall_s": round(time.time() - t0),
+                             "rechecked_at": time.strftime("%Y-%m-%d %H:%M")}
+        finally:
+            shutil.rmtree(work, ignore_errors=True)
+        json.dump(meta, open(os.path.join(dest, "meta.json"), "w"), indent=1)
+        print(json.dumps({"name": name, "property": pid}), meta["check"]["verdict"], meta["check"]["lines"][:1])
+        return
     try:
         target = os.path.join(work, "target")
         # 1. baseline: suite + demo pass without the patch
